@@ -87,6 +87,11 @@ for _f in ("A", "R", "AR"):
     SEEDS.append(("track_copy", "S2", _f))
 SEEDS.append(("comp_copy", "S2", "A"))
 SEEDS.append(("comp_copy", "S2", "R"))
+# capacity lists with entries that yield no piece (zero) in front of, between and behind ordinary ones
+for _route in ("split_zero_first", "split_zero_mid", "split_zero_last"):
+    for _c in ("S1", "S2"):
+        for _f in ("A", "R"):
+            SEEDS.append((_route, _c, _f))
 
 
 def derive(seed, p):
@@ -96,6 +101,8 @@ def derive(seed, p):
         return (s, s.copy())
     if route == "split":
         return (s, s.split([20, 50]))
+    if route.startswith("split_zero"):
+        return (s, s.split({"split_zero_first": [0, 20], "split_zero_mid": [20, 0, 50], "split_zero_last": [20, 0]}[route]))
     if route in ("bars_q", "bars_nq"):
         bars = Sequence.sequences_split_bars([s], 0, quantise_note_lengths=(route == "bars_q"))
         return (s, bars[0])
@@ -123,6 +130,14 @@ def seqs_of(obj):
     if isinstance(obj, (list, tuple)):
         return [x for o in obj for x in seqs_of(o)]
     raise TypeError(obj)
+
+
+def _bars_of(obj):
+    if isinstance(obj, Bar):
+        return [obj]
+    if isinstance(obj, Track):
+        return list(obj.bars)
+    return [b for t in obj.tracks for b in t.bars]
 
 
 def fields_of(obj):
@@ -245,6 +260,8 @@ def enabled(st, seed_i, hist, ctx):
         return ops          # the 30-note content is explored to depth 2 in both tiers
     if not hist:
         ops.append([1, 0, "check_derivation"])
+    elif SEEDS[seed_i][0].endswith("copy"):
+        ops.append([0, 0, "recopy"])      # a NEW copy of the original taken after the history must equal it
     for side in (0, 1):
         n = len(seqs_of(st[side]))
         for idx in sorted({0, n - 1}):
@@ -262,6 +279,28 @@ def check_step(st, op, seed_i, ctx):
             a, b = observe(st[0]), observe(st[1])
             if a != b:
                 viols.append(("copy_differs_from_original", f"original {a} copy {b}"))
+        return viols, False, facts, False
+    if name == "recopy":
+        facts.append("copy_after_history_checked")
+        try:
+            c = st[0].copy()              # taken before anything reads the original's views
+        except Exception as e:  # noqa: BLE001   (e.g. a bar whose sequence was padded beyond its capacity cannot be rebuilt)
+            facts.append("raises:recopy:" + type(e).__name__)
+            return viols, False, facts, False
+        if isinstance(st[0], Sequence):
+            a, b = observe(st[0]), observe(c)
+        else:
+            # a bar is rebuilt by its constructor when it is copied (signature event first, padded to its capacity): the
+            # reference is the constructor applied to an independent copy of the bar's sequence
+            try:
+                ref = [Bar(x.sequence.copy(), x.time_signature_numerator, x.time_signature_denominator, x.key_signature)
+                       for x in _bars_of(st[0])]
+            except Exception as e:  # noqa: BLE001
+                facts.append("raises:recopy:" + type(e).__name__)
+                return viols, False, facts, False
+            a, b = observe(ref), observe(_bars_of(c))
+        if a != b:
+            viols.append(("copy_differs_from_original", f"copy taken after the history: original {a} copy {b}"))
         return viols, False, facts, False
     other = 1 - side
     before_other = observe(st[other])
